@@ -122,7 +122,7 @@ def matrix(tier, focus="general"):
                     known_key="MarkCompact+NonMoving"))
     runs.append(Run("Compressor", name="immortal-referrer-probe", sems="0,0,1,6", programs=6,
                     known_key="Compressor+Immortal/NonMoving-referrer"))
-    # (repaired defect, 7bc4a11: kept as an ordinary run so that a regression is reported)
+    # (repaired defect, 7bc4a11 + 262d8b4: kept as an ordinary run so that a regression is reported)
     runs.append(Run("ConcurrentImmix", name="nonmoving", sems="0,0,6,6", programs=8))
     return runs
 
